@@ -194,6 +194,8 @@ package panos
 //vc:  nullable c1, c2
 //vc:  invariant[C18] 1 "for _, v1 := range d1.Vsys" true
 //vc:  invariant[C18] 2 "for _, v2 := range d2.Vsys" true
+// C07: a device vsys is paired with the Netspoc vsys of its own name or with none
+//vc:  assert[C07,C03] at "f(v1, v2)" @vsysPairedByOwnName ((v1.Name in m2) ==> v2 == m2[v1.Name]) && (!(v1.Name in m2) ==> v2 == nil)
 //vc:  ensures[C18] @deviceNameClashIsError (c1 != nil && old(c1.Devices) != nil && old(len(c1.Devices.Entries)) > 0 && c2 != nil && old(c2.Devices) != nil && old(len(c2.Devices.Entries)) > 0 && old(c1.Devices.Entries[0].Name) != "" && old(c2.Devices.Entries[0].Name) != "" && old(c1.Devices.Entries[0].Name) != old(c2.Devices.Entries[0].Name)) ==> result != nil
 
 // ---- C03: hasEqualizedLists (closure 1 of equalize) emits its own commands only on success ----
@@ -391,10 +393,13 @@ package panos
 //vc:  hypothesis[C03] 0 <= ai && ai < len(ab.a.rules) && 0 <= bi && bi < len(ab.b.rules) && ab.a.rules[ai] != nil && ab.b.rules[bi] != nil
 //vc:  ensures[C03] @equalRulesHaveSameType result ==> ab.a.rules[ai].RuleType == ab.b.rules[bi].RuleType
 //vc:  ensures[C03] @equalRulesHaveSameAction result ==> ab.a.rules[ai].Action == ab.b.rules[bi].Action
+//vc:  ensures[C03] @equalRulesHaveSameZones result ==> len(ab.a.rules[ai].From) == len(ab.b.rules[bi].From) && len(ab.a.rules[ai].To) == len(ab.b.rules[bi].To) && (forall k int :: { ab.a.rules[ai].From[k] } 0 <= k && k < len(ab.a.rules[ai].From) ==> ab.a.rules[ai].From[k] == ab.b.rules[bi].From[k]) && (forall k int :: { ab.a.rules[ai].To[k] } 0 <= k && k < len(ab.a.rules[ai].To) ==> ab.a.rules[ai].To[k] == ab.b.rules[bi].To[k])
 //vc:  ensures[C03] @equalRulesHaveSameLogging result ==> ab.a.rules[ai].LogStart == ab.b.rules[bi].LogStart && ab.a.rules[ai].LogEnd == ab.b.rules[bi].LogEnd && ab.a.rules[ai].LogSetting == ab.b.rules[bi].LogSetting
 // (the comparison helpers read only)
 //vc:func stringsEq
 //vc:  modifies nothing
+//vc:  invariant[C03] 1 "for i, s := range a" @equalSoFar len(a) == len(b) && -1 <= rangeindex && (forall k int :: { a[k] } 0 <= k && k <= rangeindex ==> a[k] == b[k])
+//vc:  ensures[C03] @trueOnlyForEqualLists result ==> len(a) == len(b) && (forall k int :: { a[k] } 0 <= k && k < len(a) ==> a[k] == b[k])
 //vc:func (*rulesPair).objectsTypeEq
 //vc:  modifies nothing
 //vc:func (*rulesPair).servicesEq
